@@ -16,3 +16,9 @@ open MtailVerif.C24
 #print axioms invalid_regex_reported
 #print axioms unused_declaration_reported
 #print axioms literal_zero_divisor_reported
+#print axioms MtailVerif.C24.symbols_skeletons
+#print axioms MtailVerif.C24.checkerBefore_skeletons
+#print axioms MtailVerif.C24.checkerAfter_skeletons
+#print axioms MtailVerif.C24.patternEval_skeletons
+#print axioms MtailVerif.C24.optBefore_skeletons
+#print axioms MtailVerif.C24.optAfter_skeletons
